@@ -79,6 +79,7 @@ def run(ctx):
                         "never played) and choicew pairs the sampled item with the weight at the same index")
     c05.weighted_choice(ctx, "C15.R13")
     c05.choicew_pairs(ctx, "C15.R13")
+    r14_answer_lengths(ctx, pf)
 
 
 def _is_identity_any(e, actions_name):
@@ -280,6 +281,64 @@ def r11_arm_agreement(ctx, pp, rule="C15.R11"):
         for d in draws:
             ok = len(d.args) == 3 and unparse(d.args[1]) == "actions" and isinstance(d.args[2], ast.Name)
             ctx.ob(rule, SAF, "SafeLearner._parse_pred", d, "row-major PMF: row i draws from pred[i]", ok, stmt="row PMF direct")
+
+
+def r14_answer_lengths(ctx, pf, rule="C15.R14"):
+    """exhaustiveness of pred_format's classification by the length of a sized, non-string, un-hinted answer."""
+    ctx.rule(rule, "every length of an un-hinted sized answer has an arm in pred_format: lengths 1, 3, 4, ... are wrapped as `one pmf or one action` "
+                   "(a single offered action makes for a one item pmf), length 2 goes to the (action, probability) / pmf / action disambiguation")
+    P = pf.args.args[0].arg
+    chain = None
+    for st in walk_shallow(pf):
+        if isinstance(st, ast.If) and any(isinstance(c, ast.Call) and call_name(c) == "len" and c.args and unparse(c.args[0]) == P for t in _chain_tests(st) for c in ast.walk(t)) \
+                and (chain is None or st.lineno < chain.lineno) and not any(isinstance(a, ast.If) and a is not st and st in ast.walk(a) for a in walk_shallow(pf) if isinstance(a, ast.If) and a.lineno < st.lineno and st in list(ast.walk(a))):
+            chain = st
+    if chain is None:
+        ctx.ob(rule, SAF, "SafeLearner.pred_format", pf, "the length classification of un-hinted answers was located", None, stmt="length chain")
+        return
+
+    class Sub(ast.NodeTransformer):
+        def __init__(self, n):
+            self.n = n
+
+        def visit_Call(self, node):
+            nm = call_name(node)
+            if nm == "len" and node.args and unparse(node.args[0]) == P:
+                return ast.copy_location(ast.Constant(value=self.n), node)
+            if nm in ("no_len", "isinstance"):
+                return ast.copy_location(ast.Constant(value=False), node)   # a sized answer that is not a string
+            return self.generic_visit(node)
+    n_ob = 0
+    for n in (1, 2, 3, 4, 7):
+        arm, cur = None, chain
+        while cur is not None:
+            t = Sub(n).visit(ast.parse(unparse(cur.test), mode="eval").body)
+            try:
+                val = bool(eval(compile(ast.fix_missing_locations(ast.Expression(t)), "<len>", "eval"), {"__builtins__": {}}))   # constant folding of the arm test
+            except Exception:
+                val = None
+            if val:
+                arm = cur.body
+                break
+            nxt = cur.orelse
+            cur = nxt[0] if len(nxt) == 1 and isinstance(nxt[0], ast.If) else None
+            if cur is None and nxt:
+                arm = nxt
+        wraps = arm is not None and any(isinstance(x, ast.Assign) and unparse(x.value) == f"[{P}]" and unparse(x.targets[0]) == P for st in arm for x in ast.walk(st))
+        n_ob += 1
+        if n == 2:
+            ctx.ob(rule, SAF, "SafeLearner.pred_format", chain, "a two item answer reaches the (action, probability) disambiguation", arm is not None, stmt="answer length 2")
+        else:
+            ctx.ob(rule, SAF, "SafeLearner.pred_format", chain, f"an un-hinted answer of length {n} is wrapped as one pmf / one action", wraps, stmt=f"answer length {n}")
+    ctx.floor(rule, "answer lengths examined", n_ob, 5)
+
+
+def _chain_tests(st):
+    out = []
+    while isinstance(st, ast.If):
+        out.append(st.test)
+        st = st.orelse[0] if len(st.orelse) == 1 and isinstance(st.orelse[0], ast.If) else None
+    return out
 
 
 def r12_fresh_wrapper(ctx):
@@ -540,7 +599,8 @@ def _body_of(st):
 
 
 CONTROLS = [
-    ("weighted choice by left bisection", "coba/random.py", M.replace_expr("CobaRandom.choice", "next(compress(seq, map((next(self._randu) * tot).__lt__, accumulate(weights))))",
+    ("one item answers are not classified", SAF, M.replace_expr("SafeLearner.pred_format", "len(std_pred) > 2 or len(std_pred) == 1", "len(std_pred) > 2"), "C15.R14"),
+    ("weighted choice by left bisection", "coba/random.py", M.replace_expr("CobaRandom.choice", "next(compress(seq, map(partial(lt, next(self._randu) * tot), accumulate(weights))))",
                                                                            "seq[__import__('bisect').bisect_left(list(accumulate(weights)), next(self._randu) * tot)]"), "C15.R13"),
     ("dict hints read before the identity test", SAF, M.delete_stmt("SafeLearner.pred_format", M.text_has("if actions and any((std_pred is action for action in actions)): return 'AX'")), "C15.R8"),
     ("re-wrapping inherits the probed layout", SAF, M.replace_stmt("SafeLearner.__init__", M.simple_has("self._pred_batch = None"), "self._pred_batch = learner._pred_batch if isinstance(learner, SafeLearner) else None"), "C15.R12"),
